@@ -1,4 +1,5 @@
-from props.common import ASSUME_BOUNDED, verify_keys
+from props.common import ASSUME_BOUNDED, verify_keys, add_obs
+from pv import obs_effects as E
 from pv import bounded as B
 
 NAMES = ['bnd:C04.update.total', 'bnd:C04.code', 'bnd:C04.equals_fresh_parse', 'bnd:C04.parent_links', 'bnd:C04.used_names_fresh']
@@ -20,6 +21,8 @@ def run(report):
     # helpers under contract: moving copied subtrees to their new lines shifts exactly the leaves up to last_leaf and
     # writes nothing else; the leaf walks return the nearest non-indentation leaf
     verify_keys(report, KEYS)
+    # the used-names memo is reset before anything else in update() and filled by the memo function only
+    add_obs(report, E.c04_obligations)
     report.assume("TREE-WF: the ghost theory of contracts/tree_nav.py (one well-formed tree, in-order leaf numbering) plus "
                   "leaf_at (a leaf is the leaf at its own number); _update_positions is called on consecutive siblings of one "
                   "parent (precondition, assumed of _NodesTreeNode.add_tree_nodes / _copy_nodes)")
